@@ -16,7 +16,13 @@ RULE = ("dense / sparse / Kruskal / Tucker / sum holders of small-integer data o
         "dims (sorted and shuffled), exclude_dims, one multiplicand per selected mode and one per mode of the tensor; "
         "transpose flag; sparse operands with no / one / few / half / many / all entries so that results stay sparse, "
         "sit exactly at 50 % fill, or densify; all modes contracted (scalar); Kruskal operands with non-unit, negative "
-        "and zero weights; the same array held five ways; plus a malformed stream (wrong sizes, contradictory mode "
+        "and zero weights, weight vectors that are all ones / contain no one / mix exact ones with other values / "
+        "contain zeros / are negative / fractional (every pattern for every holder kind and mttkrp branch), Tucker "
+        "cores that are all ones / superdiagonal ones / zero, sum tensors with repeated, zero and unit-weight parts; "
+        "every array operand handed over in C order, F order, as a strided view of a larger buffer, as a transposed "
+        "view, and mixed (vectors also as column / row arrays where accepted); scale with every accepted factor kind "
+        "(pyttb.tensor, sptensor, 1-d ndarray, raw N-d ndarray in each layout) over every non-empty subset of modes "
+        "of shapes with pairwise distinct extents; the same array held five ways; plus a malformed stream (wrong sizes, contradictory mode "
         "designations). Each implementation result is compared with the Lean spec value (sum over indices) and with "
         "the Lean model. non-trivial = accepted and operand has a non-zero entry; distinct = distinct case hash")
 ASSUMPTIONS = [
@@ -988,7 +994,7 @@ class TttFam(C02Family):
 
 class FullFam(C02Family):
     name = "full"
-    theorems = ("C02_tucker_full",)
+    theorems = ("C02_tucker_full", "C02_sum_full")
 
     def gen(self, rng, tier):
         out = []
